@@ -2,15 +2,25 @@
 //
 // Two real SecretConnections are established over an in-memory duplex pipe owned by the
 // harness. The pipe's Read granularity is an enumerated environment answer. Enumerated:
-//   part A  every sequence of <=3 writes (sizes around the 1024-byte frame limit) x every sequence
-//           of <=3 (quick) / <=4 (thorough) read-buffer sizes x {writes first, interleaved} x both
-//           directions, the rest drained with 4096-byte reads;
-//   part B  the same with <=2 short answers (1 or 7 bytes) of the transport at every position;
-//   part C  per ciphertext frame every byte position x every bit flipped, every truncation point,
-//           frame swap / replay / drop;
-//   part D  a byte-level re-implementation of the peer (handshake + framing) that authenticates
-//           honestly, or claims a key it cannot sign for, or sends every single-bit corruption of its
-//           authentication message, or seals an oversized chunk length.
+//
+//	part A  every sequence of <=3 writes (sizes around the 1024-byte frame limit) x every sequence
+//	        of <=3 (quick) / <=4 (thorough) read-buffer sizes x {writes first, interleaved} x both
+//	        directions, the rest drained with 4096-byte reads;
+//	part B  the same with <=2 short answers (1 or 7 bytes) of the transport at every position;
+//	part C  per ciphertext frame every byte position x every bit flipped, every truncation point,
+//	        frame swap / replay / drop;
+//	part D  a byte-level re-implementation of the peer (handshake + framing) that authenticates
+//	        honestly, or claims a key it cannot sign for, or sends every single-bit corruption of its
+//	        authentication message, or seals an oversized chunk length;
+//	part E  the handshake against a DISHONEST remote end: the byte-level peer sends every shape of
+//	        authentication message {declared key length} x {declared signature length} x {claimed key:
+//	        own, foreign} x {signature material} x {framing of the 100 bytes} to a real end that dials
+//	        (peer answers) and to a real end that listens (peer speaks first), with the peer's ephemeral
+//	        key below and above the real one (both nonce orders). Reference: a connection is established
+//	        iff the message carries a 32-byte key and a 64-byte signature of the session challenge that
+//	        verifies under that key (crypto/ed25519 in the harness); then RemotePubKey is that key, and
+//	        the real end's own authentication message proves the real key to the peer.
+//
 // Oracle: concatenation of the bytes returned by Read (using the returned n) == concatenation
 // written; a manipulated ciphertext yields an error and never data; RemotePubKey == the key of
 // the peer.
@@ -18,6 +28,7 @@ package main
 
 import (
 	"bytes"
+	"crypto/ed25519"
 	crand "crypto/rand"
 	"crypto/sha256"
 	"encoding/binary"
@@ -57,6 +68,7 @@ type detRand struct {
 	mu  sync.Mutex
 	ctr uint64
 	buf []byte
+	tag string
 }
 
 func (d *detRand) Read(p []byte) (int, error) {
@@ -67,7 +79,7 @@ func (d *detRand) Read(p []byte) (int, error) {
 			var c [8]byte
 			binary.BigEndian.PutUint64(c[:], d.ctr)
 			d.ctr++
-			h := sha256.Sum256(append([]byte("verif-c32"), c[:]...))
+			h := sha256.Sum256(append([]byte("verif-c32"+d.tag), c[:]...))
 			d.buf = h[:]
 		}
 		p[i] = d.buf[0]
@@ -183,6 +195,14 @@ func (h *half) takeHeld() []byte {
 func (h *half) set(blocking, hold bool, script [][2]int) {
 	h.mu.Lock()
 	h.blocking, h.hold, h.script, h.reads = blocking, hold, script, 0
+	h.mu.Unlock()
+}
+
+// closeWrite ends this direction only: the reader sees EOF once the buffered bytes are consumed.
+func (h *half) closeWrite() {
+	h.mu.Lock()
+	h.closed = true
+	h.cond.Broadcast()
 	h.mu.Unlock()
 }
 
@@ -1023,6 +1043,393 @@ func partD(run *ev.Run) {
 	}
 }
 
+// ---------------------------------------------------------------- part E: dishonest remote end in the handshake
+
+// authShape is one behaviour of the remote end during the handshake.
+type authShape struct {
+	Role    string `json:"role"`               // real-dials: the peer answers each message of the real end; real-listens: the peer speaks first
+	PeerEph string `json:"peer_ephemeral_key"` // low / high relative to the real end's ephemeral key (decides the nonce order)
+	Claim   string `json:"claimed_key"`        // own: the key the peer can sign with; foreign: somebody else's public key
+	KeyLen  int    `json:"declared_key_length"`
+	SigLen  int    `json:"declared_signature_length"`
+	Sig     string `json:"signature_material"` // by-own-key | zeros | by-own-key-over-other-challenge
+	Framing string `json:"framing"`            // one-frame-zero-padded | one-frame-material-continues | split-after-key-field | unpadded-then-close
+	Enc     string `json:"length_encoding"`    // canonical | {key,sig}-length-two-byte (02 00 len) | {key,sig}-length-negative (f1 len)
+}
+
+type ephKey struct{ pub, priv *[32]byte }
+
+// peerEphKeys returns two ephemeral key pairs of the peer whose public keys start with 0x00 and 0xff,
+// i.e. sort below / above (almost) every ephemeral key the real end draws. A dishonest peer may reuse them.
+func peerEphKeys() (lo, hi ephKey) {
+	r := &detRand{tag: "-peer-eph"}
+	for lo.pub == nil || hi.pub == nil {
+		pub, priv, err := box.GenerateKey(r)
+		if err != nil {
+			ev.Fatal("box.GenerateKey: %v", err)
+		}
+		if pub[0] == 0x00 && lo.pub == nil {
+			lo = ephKey{pub, priv}
+		}
+		if pub[0] == 0xff && hi.pub == nil {
+			hi = ephKey{pub, priv}
+		}
+	}
+	return
+}
+
+func fit(material []byte, n int) []byte {
+	out := make([]byte, n)
+	copy(out, material)
+	return out
+}
+
+// lenPrefix is the go-wire length prefix of a byte slice: 0x00 for the empty slice, else 0x01 <len>;
+// the non-canonical forms are a two-byte big-endian length (02 00 len) and a negative one (f1 len).
+func lenPrefix(n int, form string) []byte {
+	switch form {
+	case "two-byte":
+		return []byte{0x02, 0x00, byte(n)}
+	case "negative":
+		return []byte{0xf1, byte(n)}
+	}
+	if n == 0 {
+		return []byte{0x00}
+	}
+	return []byte{0x01, byte(n)}
+}
+
+type authResult struct {
+	sc        *connection.SecretConnection
+	herr      error
+	panicked  bool
+	peerIsLo  bool
+	claimed   []byte // the Key field as sent
+	expect    bool   // reference: must the real end establish the connection?
+	realAuth  string // "" = the real end's authentication message proved the real key to the peer
+	realKeyOK bool
+}
+
+// authSession runs one handshake of the real code (side 0) against the byte-level peer behaving as s.
+func authSession(s authShape, seq int, ephLo, ephHi ephKey) (res authResult) {
+	pairMu.Lock()
+	defer pairMu.Unlock()
+	ab, ba := newHalf(), newHalf()
+	epReal := &endpoint{in: ba, out: ab}
+	epRaw := &endpoint{in: ab, out: ba}
+	realKey := chainkd.RootXPrv([]byte{'R', byte(seq), byte(seq >> 8), byte(seq >> 16)})
+	rawKey := chainkd.RootXPrv([]byte{'H', byte(seq), byte(seq >> 8), byte(seq >> 16)})
+	victim := chainkd.RootXPrv([]byte{'V', byte(seq), byte(seq >> 8), byte(seq >> 16)})
+	eph := ephLo
+	if s.PeerEph == "high" {
+		eph = ephHi
+	}
+	done := make(chan struct{})
+	start := func() {
+		go func() {
+			defer close(done)
+			defer func() {
+				if r := recover(); r != nil {
+					res.herr = fmt.Errorf("panic: %v", r)
+					res.panicked = true
+					res.sc = nil
+					epReal.Close()
+				}
+			}()
+			sc, err := connection.MakeSecretConnection(epReal, realKey)
+			if err != nil {
+				sc = nil
+				epReal.Close()
+			}
+			res.sc, res.herr = sc, err
+		}()
+	}
+	if s.Role == "real-listens" {
+		// the remote end dialled: its ephemeral key is already there when the real end starts
+		epRaw.Write(eph.pub[:])
+		start()
+	} else {
+		start()
+		ab.waitWritten(32)
+		epRaw.Write(eph.pub[:])
+	}
+	var rem [32]byte
+	if _, err := io.ReadFull(epRaw, rem[:]); err != nil {
+		<-done
+		ev.Fatal("part E: the peer could not read the real end's ephemeral key: %v (real end: %v)", err, res.herr)
+	}
+	rp := &rawPeer{ep: epRaw}
+	box.Precompute(&rp.secret, &rem, eph.priv)
+	lo, hi := eph.pub[:], rem[:]
+	rp.isLo = true
+	if bytes.Compare(lo, hi) >= 0 {
+		lo, hi = hi, lo
+		rp.isLo = false
+	}
+	res.peerIsLo = rp.isLo
+	both := append(append([]byte{}, lo...), hi...)
+	n1 := hash24(both)
+	n2 := new([24]byte)
+	*n2 = *n1
+	n2[23] ^= 1
+	if rp.isLo {
+		rp.recv, rp.send = n1, n2
+	} else {
+		rp.recv, rp.send = n2, n1
+	}
+	rp.challenge = sha256.Sum256(both)
+
+	// the authentication message
+	keyMat := []byte(rawKey.XPub().PublicKey())
+	if s.Claim == "foreign" {
+		keyMat = []byte(victim.XPub().PublicKey())
+	}
+	var sigMat []byte
+	switch s.Sig {
+	case "by-own-key":
+		sigMat = rawKey.Sign(rp.challenge[:])
+	case "by-own-key-over-other-challenge":
+		sw := sha256.Sum256(append(append([]byte{}, hi...), lo...))
+		sigMat = rawKey.Sign(sw[:])
+	case "zeros":
+		sigMat = make([]byte, 64)
+	default:
+		ev.Fatal("part E: unknown signature material %q", s.Sig)
+	}
+	keyField, sigField := fit(keyMat, s.KeyLen), fit(sigMat, s.SigLen)
+	res.claimed = keyField
+	// reference: the remote proved possession of the key it claims
+	res.expect = len(keyField) == ed25519.PublicKeySize && len(sigField) == ed25519.SignatureSize &&
+		ed25519.Verify(ed25519.PublicKey(keyField), rp.challenge[:], sigField)
+	keyForm, sigForm := "", ""
+	switch s.Enc {
+	case "canonical":
+	case "key-length-two-byte":
+		keyForm = "two-byte"
+	case "key-length-negative":
+		keyForm = "negative"
+	case "sig-length-two-byte":
+		sigForm = "two-byte"
+	case "sig-length-negative":
+		sigForm = "negative"
+	default:
+		ev.Fatal("part E: unknown length encoding %q", s.Enc)
+	}
+	if s.Enc != "canonical" {
+		// a 32-byte key and a 64-byte signature with a longer prefix do not fit into the 100 bytes the
+		// real end reads, and a negative length is no length: such a message never authenticates
+		res.expect = false
+	}
+	part1 := append(lenPrefix(s.KeyLen, keyForm), keyField...)
+	part2 := append(lenPrefix(s.SigLen, sigForm), sigField...)
+	msg := append(append([]byte{}, part1...), part2...)
+	var frames [][]byte
+	closeAfter := false
+	switch s.Framing {
+	case "one-frame-zero-padded":
+		if len(msg) < 100 {
+			msg = fit(msg, 100)
+		}
+		frames = [][]byte{msg}
+	case "one-frame-material-continues":
+		// the bytes behind the declared signature are the rest of the 64-byte material, then zeros
+		if s.SigLen < len(sigMat) {
+			msg = append(msg, sigMat[s.SigLen:]...)
+		}
+		if len(msg) < 100 {
+			msg = fit(msg, 100)
+		}
+		frames = [][]byte{msg}
+	case "split-after-key-field":
+		rest := part2
+		if len(part1)+len(rest) < 100 {
+			rest = fit(rest, 100-len(part1))
+		}
+		frames = [][]byte{part1, rest}
+	case "unpadded-then-close":
+		frames = [][]byte{msg}
+		closeAfter = len(msg) < 100
+	default:
+		ev.Fatal("part E: unknown framing %q", s.Framing)
+	}
+	if s.Role == "real-dials" {
+		// the peer answers: it waits for the real end's authentication frame
+		ab.waitWritten(32 + sealedSize)
+	}
+	for _, f := range frames {
+		for len(f) > 0 {
+			k := len(f)
+			if k > dataMax {
+				k = dataMax
+			}
+			epRaw.Write(rp.seal(k, f[:k]))
+			f = f[k:]
+		}
+	}
+	if closeAfter {
+		ba.closeWrite()
+	}
+	select {
+	case <-done:
+	case <-time.After(20 * time.Second):
+		ev.Fatal("part E: the real end's handshake did not return within 20 s for %+v", s)
+	}
+	// the real end's own authentication message, as the peer sees it
+	ab.set(false, false, nil)
+	m, err := rp.open()
+	realPub := []byte(realKey.XPub().PublicKey())
+	switch {
+	case err != nil:
+		res.realAuth = fmt.Sprintf("cannot be opened: %v", err)
+	case len(m) != 100 || m[0] != 0x01 || m[1] != 0x20 || m[34] != 0x01 || m[35] != 0x40:
+		res.realAuth = fmt.Sprintf("not the 100-byte encoding of a 32-byte key and a 64-byte signature (%d bytes)", len(m))
+	case !bytes.Equal(m[2:34], realPub):
+		res.realAuth = "carries a key that is not the real end's key"
+	case !ed25519.Verify(ed25519.PublicKey(realPub), rp.challenge[:], m[36:100]):
+		res.realAuth = "its signature of the session challenge does not verify under the real end's key"
+	}
+	if res.sc == nil {
+		epReal.Close()
+	}
+	return res
+}
+
+func lenClass(n, want int, what string) string {
+	switch {
+	case n == want:
+		return ""
+	case n == 0:
+		return "empty-" + what
+	case n < want:
+		return "short-" + what
+	default:
+		return "long-" + what
+	}
+}
+
+func (s authShape) class() string {
+	c := s.Claim + "-key"
+	if k := lenClass(s.KeyLen, 32, "key"); k != "" {
+		c += "." + k
+	}
+	if k := lenClass(s.SigLen, 64, "signature"); k != "" {
+		c += "." + k
+	} else if !(s.Claim == "own" && s.Sig == "by-own-key" && s.KeyLen == 32) {
+		c += ".wrong-signature"
+	} else {
+		c += ".genuine-signature"
+	}
+	if s.Enc != "canonical" {
+		c += ".noncanonical-length"
+	}
+	return c
+}
+
+func partE(run *ev.Run) {
+	keyLens := []int{0, 1, 31, 32, 33}
+	sigLens := []int{0, 1, 2, 31, 32, 33, 62, 63, 64, 65, 66}
+	sigKinds := []string{"by-own-key", "zeros"}
+	if run.Thorough() {
+		keyLens = []int{0, 1, 2, 16, 31, 32, 33, 34, 64}
+		sigLens = nil
+		for l := 0; l <= 66; l++ {
+			sigLens = append(sigLens, l)
+		}
+		sigKinds = append(sigKinds, "by-own-key-over-other-challenge")
+	}
+	framings := []string{"one-frame-zero-padded", "one-frame-material-continues", "split-after-key-field", "unpadded-then-close"}
+	encs := []string{"canonical", "sig-length-two-byte", "sig-length-negative"}
+	if run.Thorough() {
+		encs = append(encs, "key-length-two-byte", "key-length-negative")
+	}
+	run.Set("partE_length_encodings", encs)
+	run.Set("partE_declared_key_lengths", keyLens)
+	run.Set("partE_declared_signature_lengths", sigLens)
+	run.Set("partE_signature_material", sigKinds)
+	run.Set("partE_framings", framings)
+	ephLo, ephHi := peerEphKeys()
+	seq := 0
+	orders := map[string]int{}
+	type firstCase struct {
+		s    authShape
+		what string
+	}
+	first := map[string]firstCase{}
+	var keys []string
+	report := func(key string, s authShape, what string) {
+		if _, ok := first[key]; !ok {
+			first[key] = firstCase{s, what}
+			keys = append(keys, key)
+		}
+	}
+	for _, role := range []string{"real-dials", "real-listens"} {
+		for _, pe := range []string{"low", "high"} {
+			for _, claim := range []string{"own", "foreign"} {
+				for _, kl := range keyLens {
+					for _, sl := range sigLens {
+						for _, sk := range sigKinds {
+							for _, fr := range framings {
+								for _, enc := range encs {
+									if seq%256 == 0 && run.OutOfTime() {
+										run.Capped("part E stopped by the time budget")
+										goto out
+									}
+									s := authShape{role, pe, claim, kl, sl, sk, fr, enc}
+									seq++
+									if seq%997 == 1 {
+										run.Sample(s)
+									}
+									r := authSession(s, seq, ephLo, ephHi)
+									run.Add("evaluations", 1)
+									run.Add("distinct_nontrivial", 1)
+									run.Add("auth_shape_sessions", 1)
+									if r.peerIsLo {
+										orders[role+":peer_has_low_ephemeral_key"]++
+									} else {
+										orders[role+":peer_has_high_ephemeral_key"]++
+									}
+									cl := s.class()
+									if r.realAuth != "" {
+										report("auth-message-does-not-prove-local-key", s, "the real end's authentication message "+r.realAuth)
+									}
+									switch {
+									case r.panicked:
+										run.Outcome("authshape:" + cl + ":panic")
+										pk := "handshake-panic." + cl
+										if s.KeyLen != 32 {
+											pk = "handshake-panic.key-length-not-32"
+										}
+										report(pk, s, fmt.Sprintf("MakeSecretConnection panicked (nothing on the node's accept/dial path recovers): %v", r.herr))
+									case r.sc != nil && !r.expect:
+										run.Outcome("authshape:" + cl + ":ACCEPTED")
+										report("handshake-accepts-unauthenticated-key."+cl, s, fmt.Sprintf("the connection was established although the remote never proved possession of the key it claims; RemotePubKey=%x", []byte(r.sc.RemotePubKey())))
+									case r.sc == nil && r.expect:
+										run.Outcome("authshape:" + cl + ":REJECTED")
+										report("handshake-rejects-authenticated-peer."+cl, s, fmt.Sprintf("a remote that sent its key and a valid signature of the session challenge was rejected: %v", r.herr))
+									case r.sc != nil:
+										if !bytes.Equal(r.sc.RemotePubKey(), r.claimed) {
+											report("remote-pubkey-mismatch", s, fmt.Sprintf("RemotePubKey=%x, the remote authenticated with %x", []byte(r.sc.RemotePubKey()), r.claimed))
+										}
+										run.Outcome("authshape:" + cl + ":accepted")
+									default:
+										run.Outcome("authshape:" + cl + ":rejected")
+									}
+								}
+							}
+						}
+					}
+				}
+			}
+		}
+	}
+out:
+	for _, k := range keys {
+		f := first[k]
+		run.Violation(k, fmt.Sprintf("part E %+v: %s", f.s, f.what), f.s)
+	}
+	run.Set("partE_nonce_orders", orders)
+}
+
 // ---------------------------------------------------------------- main
 
 func main() {
@@ -1100,10 +1507,14 @@ func main() {
 	t0 = time.Now()
 	partD(run)
 	run.Set("partD_wall_s", time.Since(t0).Seconds())
+	t0 = time.Now()
+	partE(run)
+	run.Set("partE_wall_s", time.Since(t0).Seconds())
 
-	run.Set("rule", "cases are enumerated without repetition (direction x order x write-size sequence x read-size sequence x transport script; tamper position x bit; peer behaviour); a stream case counts as non-trivial when a Write spans >= 2 frames or a Read is served from the receive buffer (buffer smaller than the frame remainder); every tamper case and every byte-level-peer session counts")
+	run.Set("rule", "cases are enumerated without repetition (direction x order x write-size sequence x read-size sequence x transport script; tamper position x bit; peer behaviour; part E: role of the real end x nonce order x claimed key x declared key length x declared signature length x signature material x framing x length encoding of the authentication message); a stream case counts as non-trivial when a Write spans >= 2 frames or a Read is served from the receive buffer (buffer smaller than the frame remainder); every tamper case and every byte-level-peer session counts (each part E session is a full handshake of the real code against one distinct remote behaviour, judged by the harness' own crypto/ed25519 verification of the message it sent)")
 	run.Assume("the transport delivers bytes in order and unmodified except where the harness manipulates them; reads happen after the corresponding writes (a blocking read is replaced by the harness' 'nothing to read' error)")
 	run.Assume("golang.org/x/crypto nacl/secretbox, nacl/box, ripemd160 and chainkd signing are trusted (the byte-level peer uses them too); handshake randomness comes from a deterministic stream")
+	run.Assume("part E: the dishonest remote end follows the key exchange (a peer that does not know the shared secret cannot seal a frame at all: part C) and deviates only in its authentication message: declared key/signature lengths from the stated sets, key material = its own or a foreign public key cut or zero-extended to the declared length, signature material from the stated set, 4 framings, canonical and two non-canonical (thorough: four) length prefixes; crypto/ed25519.Verify is the trusted reference for 'proved possession'")
 	run.Assume("flips are single-bit; multi-bit forgeries rely on Poly1305 and are out of scope")
 	pprof.StopCPUProfile()
 	run.Finish()
